@@ -457,7 +457,7 @@ func init() {
 		c.Group("C11/leader-candidates", "(shared with C08) the operator builder forces a leader onto a store that does not accept leaders only where explicitly asked to", func() { ruleForceFlagOwnership(c); ruleLeaderRoleRules(c) })
 		c.Group("C11/role-preserved", "a moved peer keeps its role (copied from the replaced peer found by store regardless of role)", func() { ruleRolePreserved(c) })
 		c.Group("C11/leader-to-follower", "leadership is transferred only to stores holding a follower of the region", func() { ruleLeaderTransferTargets(c) })
-		c.Group("C11/scatter-one-target-per-peer", "the scatterer never lets two origin peers end on one store", func() { ruleScatterOneTargetPerPeer(c) })
+		c.Group("C11/scatter-one-target-per-peer", "the scatterer never lets two origin peers end on one store", func() { ruleScatterOneTargetPerPeer(c); ruleScatterPlacesEveryPeer(c) })
 		c.Group("C11/filter-predicates", "(shared with C10) store-state condition lists and filter predicates; reject-leader label entries compared one by one", func() { ruleFilterPredicates(c); ruleLabelPropertyPairs(c); ruleStoreCopiesKeepRuntimeState(c) })
 		c.Group("C11/id-kind", "(shared with C09) store ids, peer ids and region ids are not mixed in the schedulers", func() { ruleIDKinds(c, "server/schedulers", "server/schedule") })
 	})
@@ -508,4 +508,84 @@ func ruleStoreCopiesKeepRuntimeState(c *Ctx) {
 		}
 	}
 	c.Check(okClone && nRet > 0, rule, "store view of "+fnName(up), "the store itself or a Clone of it", P.pos(up.Pos()), "")
+}
+
+// ruleScatterPlacesEveryPeer: the scatter target is built peer by peer. Every
+// peer of the region — ordinary engine and every special engine — goes through
+// the placement helper, and every peer the helper sees gets an entry in the
+// target map; a peer that is skipped is missing from the target and the
+// operator removes it.
+func ruleScatterPlacesEveryPeer(c *Ctx) {
+	P := c.P
+	rule := c.Prop + "/scatter-one-target-per-peer"
+	sr := P.Method("server/schedule", "RegionScatterer", "scatterRegion")
+	selectStore := F(P.Method("server/schedule", "RegionScatterer", "selectStore"))
+	create := F(P.Func("server/schedule/operator", "CreateScatterRegionOperator"))
+	// the placement helper: the part of scatterRegion (a closure, or the function itself) that calls selectStore
+	var helper *ssa.Function
+	for _, a := range sr.AnonFuncs {
+		if len(callsIn(a, false, selectStore)) > 0 {
+			helper = a
+		}
+	}
+	if helper == nil {
+		// written inline: every loop of scatterRegion that selects a store files the result
+		helper = sr
+	}
+	isPlace := func(x ssa.Instruction) bool {
+		if helper == sr {
+			return isCallTo(x, selectStore)
+		}
+		ci, ok := x.(ssa.CallInstruction)
+		return ok && ci.Common().StaticCallee() == helper
+	}
+	// (1) inside the helper: each peer visited is filed in the target map
+	n := 0
+	for _, l := range loopsOf(helper) {
+		has := false
+		for b := range l.blocks {
+			for _, ins := range b.Instrs {
+				if isCallTo(ins, selectStore) {
+					has = true
+				}
+			}
+		}
+		if !has {
+			continue
+		}
+		n++
+		files := everyIterationCalls(l, func(x ssa.Instruction) bool {
+			mu, ok := x.(*ssa.MapUpdate)
+			return ok && valueIsCallTo(mu.Value, selectStore)
+		})
+		c.Check(files, rule, fmt.Sprintf("placement loop #%d in %s", n, fnName(helper)), "every peer visited is placed (selectStore) and the result filed in the target map", P.pos(helper.Pos()), "")
+	}
+	if n == 0 {
+		c.Undec(rule, "placement loop of the scatterer", "found", P.pos(sr.Pos()), "")
+	}
+	if helper != sr {
+		// (2) every loop of scatterRegion that places peers engine by engine does so for every engine
+		k := 0
+		for _, l := range loopsOf(sr) {
+			has := false
+			for b := range l.blocks {
+				for _, ins := range b.Instrs {
+					if isPlace(ins) {
+						has = true
+					}
+				}
+			}
+			if !has {
+				continue
+			}
+			k++
+			c.Check(everyIterationCalls(l, isPlace), rule, fmt.Sprintf("engine loop #%d in %s", k, fnName(sr)), "the peers of every special engine are placed — also of an engine seen for the first time", P.pos(sr.Pos()), "")
+		}
+		if k == 0 {
+			c.Undec(rule, "loop over the special engines in "+fnName(sr), "found", P.pos(sr.Pos()), "")
+		}
+		// (3) the ordinary peers are placed on every path to the operator
+		placedOutside := &calledEv{name: "placement of the ordinary peers", match: func(x ssa.Instruction) bool { return isPlace(x) && !loopsContain(sr, x.Block()) }}
+		c.need(rule, sr, "CreateScatterRegionOperator", instrCallMatcher(create), []Ev{placedOutside}, all, "the ordinary peers were placed before the operator is built")
+	}
 }
